@@ -741,7 +741,7 @@ func (x *e1) checkEnd(connAlive bool, faultFree bool) {
 			want := wantErrText(spec.HErr)
 			found := false
 			for _, p := range x.monS.Packets {
-				if p.Kind == kError && len(p.Data) >= 8 && string(p.Data[8:]) == want {
+				if p.Kind == kError && len(p.Data) >= 8 && string(p.Data[8:]) == want && (x.sidOf(r) == 0 || p.Stream == x.sidOf(r)) {
 					found = true
 				}
 			}
@@ -1071,7 +1071,8 @@ func (x *e1) checkFaultContainment() {
 func (x *e1) errConsumed(r *rpcRec) bool {
 	want := wantErrText(r.Spec.HErr)
 	for _, p := range x.monS.Packets {
-		if p.Kind == kError && len(p.Data) >= 8 && string(p.Data[8:]) == want {
+		// (texts are not unique any more: the shared sentinel; match the stream too)
+		if p.Kind == kError && len(p.Data) >= 8 && string(p.Data[8:]) == want && (x.sidOf(r) == 0 || p.Stream == x.sidOf(r)) {
 			return x.cep.Delivered >= p.EndOff
 		}
 	}
@@ -1208,4 +1209,19 @@ func firstRecvErrStep(sd *sideRec) int {
 		}
 	}
 	return 1 << 30
+}
+
+// sidOf: the stream id rpc r used (for unary calls taken from the invoke packet on
+// the client's wire, which carries the rpc's name).
+func (x *e1) sidOf(r *rpcRec) uint64 {
+	if r.SID != 0 {
+		return r.SID
+	}
+	suffix := fmt.Sprintf("/%d", r.Spec.Idx)
+	for _, p := range x.monC.Packets {
+		if p.Kind == kInvoke && strings.HasPrefix(string(p.Data), "/sim/") && strings.HasSuffix(string(p.Data), suffix) {
+			return p.Stream
+		}
+	}
+	return 0
 }
